@@ -52,9 +52,12 @@ var errC13Injected = errors.New("verif: injected storage fault")
 // (data-storage relative) path, whichever storage it is being read from or written to.
 type c13Backend struct {
 	storage.Backend
-	keyOf         func(path string) string
-	readFaults    map[string]string // key -> "before" | "mid"   (ReadTo / Read)
-	writeFaults   map[string]string // key -> "before" | "mid"   (WriteReader / Write)
+	keyOf func(path string) string
+	// fault modes: "before" (fails before the first byte) | "mid" (delivers a prefix, then fails);
+	// with the suffix "-once" the fault is TRANSIENT: only the first call for that file fails,
+	// an immediate retry succeeds.
+	readFaults    map[string]string // key -> mode   (ReadTo / Read)
+	writeFaults   map[string]string // key -> mode   (WriteReader / Write)
 	listFault     bool              // List / ListObjects fail
 	manifestRead  bool              // Read of <id>/manifest.json fails
 	manifestWrite bool              // Write of <id>/manifest.json fails
@@ -68,13 +71,34 @@ func (b *c13Backend) hit(k string) {
 	b.hits[k]++
 }
 
+// fires reports whether the fault configured for (kind,key) fires on this call
+// and returns its base mode ("before" | "mid").
+func (b *c13Backend) fires(faults map[string]string, kind, key string) (string, bool) {
+	mode, ok := faults[key]
+	if !ok {
+		return "", false
+	}
+	if strings.HasSuffix(mode, "-once") {
+		if b.hits[kind+":"+key] > 0 {
+			return "", false // transient: already failed once, now it works
+		}
+		mode = strings.TrimSuffix(mode, "-once")
+	}
+	b.hit(kind + ":" + key)
+	return mode, true
+}
+
 func (b *c13Backend) ReadTo(ctx context.Context, path string, w io.Writer) error {
-	if mode, ok := b.readFaults[b.keyOf(path)]; ok {
-		b.hit("read:" + b.keyOf(path))
+	if mode, ok := b.fires(b.readFaults, "read", b.keyOf(path)); ok {
 		if mode == "mid" {
+			// the stream breaks after some bytes have already reached the writer
 			var buf bytes.Buffer
-			if err := b.Backend.ReadTo(ctx, path, &buf); err == nil {
-				_, _ = w.Write(buf.Bytes()[:buf.Len()/2])
+			if err := b.Backend.ReadTo(ctx, path, &buf); err == nil && buf.Len() > 0 {
+				k := buf.Len() / 2
+				if k == 0 {
+					k = 1
+				}
+				_, _ = w.Write(buf.Bytes()[:k])
 			}
 		}
 		return fmt.Errorf("read %s: %w", path, errC13Injected)
@@ -87,8 +111,7 @@ func (b *c13Backend) Read(ctx context.Context, path string) ([]byte, error) {
 		b.hit("read:MANIFEST")
 		return nil, fmt.Errorf("read %s: %w", path, errC13Injected)
 	}
-	if _, ok := b.readFaults[b.keyOf(path)]; ok {
-		b.hit("read:" + b.keyOf(path))
+	if _, ok := b.fires(b.readFaults, "read", b.keyOf(path)); ok {
 		return nil, fmt.Errorf("read %s: %w", path, errC13Injected)
 	}
 	return b.Backend.Read(ctx, path)
@@ -112,8 +135,7 @@ func (f *c13FailingReader) Read(p []byte) (int, error) {
 }
 
 func (b *c13Backend) WriteReader(ctx context.Context, path string, r io.Reader, size int64) error {
-	if mode, ok := b.writeFaults[b.keyOf(path)]; ok {
-		b.hit("write:" + b.keyOf(path))
+	if mode, ok := b.fires(b.writeFaults, "write", b.keyOf(path)); ok {
 		if mode == "mid" {
 			// the transfer dies half way: the real backend sees a failing reader
 			err := b.Backend.WriteReader(ctx, path, &c13FailingReader{r: r, n: size / 2}, size)
@@ -132,8 +154,7 @@ func (b *c13Backend) Write(ctx context.Context, path string, data []byte) error 
 		b.hit("write:MANIFEST")
 		return fmt.Errorf("write %s: %w", path, errC13Injected)
 	}
-	if _, ok := b.writeFaults[b.keyOf(path)]; ok {
-		b.hit("write:" + b.keyOf(path))
+	if _, ok := b.fires(b.writeFaults, "write", b.keyOf(path)); ok {
 		return fmt.Errorf("write %s: %w", path, errC13Injected)
 	}
 	return b.Backend.Write(ctx, path, data)
@@ -204,6 +225,31 @@ func c13GenTree(t *rapid.T) []c13File {
 		b := c13Bytes(t, label)
 		files = append(files, c13File{Path: p, Kind: kind, Size: len(b), data: b})
 	}
+	// Unusual stores: nothing at all / only files a backup does not carry / Iceberg table
+	// metadata but not a single parquet file (retention aged the data out, or the table is new).
+	shape := rapid.SampledFrom([]string{"normal", "normal", "normal", "normal", "normal", "normal", "metadata-only", "metadata-only", "empty", "other-only"}).Draw(t, "treeShape")
+	switch shape {
+	case "empty":
+		return nil
+	case "other-only":
+		add("prod/cpu/2025/01/01/00/_SUCCESS", "other", "other")
+		add("prod/cpu/notes.txt", "other", "other")
+		return files
+	case "metadata-only":
+		nT := rapid.IntRange(1, 3).Draw(t, "nTables")
+		for i := 0; i < nT; i++ {
+			tbl := fmt.Sprintf("%s_%s.db/%s", rapid.SampledFrom([]string{"arc", "lake"}).Draw(t, "ns"),
+				rapid.SampledFrom(c13DBs).Draw(t, "db"), rapid.SampledFrom(c13Meas).Draw(t, "meas"))
+			add(tbl+"/metadata/00000-5f2c.metadata.json", "iceberg-meta", "ice")
+			if rapid.Bool().Draw(t, "iceMore") {
+				add(tbl+"/metadata/v1.metadata.json", "iceberg-meta", "ice")
+				add(tbl+"/metadata/version-hint.text", "iceberg-meta", "ice")
+				add(tbl+"/metadata/snap-812-1-aa.avro", "iceberg-meta", "ice")
+			}
+		}
+		sort.Slice(files, func(i, k int) bool { return files[i].Path < files[k].Path })
+		return files
+	}
 	big := rapid.IntRange(0, 2).Draw(t, "bigTree") == 0 // >= 12 files so that one skip stays under the 10% ceiling
 	// Sizes are kept moderate: every file costs ~6 directory levels in three trees.
 	// Small trees: 1-3 databases x 1-2 measurements x 1-2 hours x 1-2 files;
@@ -267,7 +313,7 @@ func c13Subset(t *rapid.T, carried []c13File, max int, label string) map[string]
 	n := rapid.IntRange(1, max).Draw(t, label+"N")
 	for i := 0; i < n; i++ {
 		f := carried[rapid.IntRange(0, len(carried)-1).Draw(t, label+"Idx")]
-		out[f.Path] = rapid.SampledFrom([]string{"before", "mid"}).Draw(t, label+"Mode")
+		out[f.Path] = rapid.SampledFrom([]string{"before", "mid", "mid-once", "mid", "mid-once", "before-once"}).Draw(t, label+"Mode")
 	}
 	return out
 }
@@ -596,6 +642,24 @@ func TestVerifC13_BackupRestore(t *testing.T) {
 		}
 		if hasIce {
 			verifkit.Class("tree-with-iceberg-metadata")
+		}
+		nParquet := 0
+		for _, f := range p.Files {
+			if f.Kind == "data" {
+				nParquet++
+			}
+		}
+		switch {
+		case len(c13Carried(p.Files)) == 0:
+			verifkit.Class("tree-with-nothing-to-back-up")
+		case nParquet == 0:
+			verifkit.Class("tree-iceberg-metadata-but-no-parquet")
+		}
+		for _, m := range p.BackupReadFaults {
+			if m == "mid-once" {
+				verifkit.Class("backup-transient-mid-stream-read-fault")
+				break
+			}
 		}
 		if len(c13Carried(p.Files)) >= 10 {
 			verifkit.Class("tree>=10-files")
